@@ -5,6 +5,7 @@ go 1.23
 require (
 	github.com/HdrHistogram/hdrhistogram-go v1.1.0
 	github.com/getlantern/bytemap v0.0.0-20210122162547-b07440a617f0
+	github.com/getlantern/goexpr v0.0.0-20211215215226-4cdd4fd2847b
 	github.com/getlantern/golog v0.0.0-20210606115803-bce9f9fe5a5f
 	github.com/getlantern/zenodb v0.0.0
 	pgregory.net/rapid v1.3.0
@@ -19,7 +20,6 @@ require (
 	github.com/dustin/go-humanize v1.0.0 // indirect
 	github.com/getlantern/context v0.0.0-20190109183933-c447772a6520 // indirect
 	github.com/getlantern/errors v1.0.1 // indirect
-	github.com/getlantern/goexpr v0.0.0-20211215215226-4cdd4fd2847b // indirect
 	github.com/getlantern/hex v0.0.0-20190417191902-c6586a6fe0b7 // indirect
 	github.com/getlantern/hidden v0.0.0-20201229170000-e66e7f878730 // indirect
 	github.com/getlantern/msgpack v3.1.4+incompatible // indirect
